@@ -56,6 +56,8 @@ func init() {
 			{ID: "C08-R31", Title: "map lookups use the map's own keys", Floor: 1, Run: mapLookupsUseTheMapsOwnKeys},
 			{ID: "C08-R32", Title: "Go values of script objects are not silently nil", Floor: 1, Run: goValuesOfScriptObjectsAreNotSilentlyNil},
 			{ID: "C08-R33", Title: "defaults do not replace what the host gave", Floor: 1, Run: defaultsDoNotReplaceWhatTheHostGave},
+			{ID: "C08-R34", Title: "one script argument is one Go argument", Floor: 1, Run: oneScriptArgumentIsOneGoArgument},
+			{ID: "C08-R35", Title: "containers are filled through the element converter", Floor: 2, Run: containersAreFilledThroughTheElementConverter},
 		},
 	})
 }
